@@ -53,10 +53,25 @@ pub enum Rec {
     Mark { args: Vec<String>, cfg: Vec<u32>, session: u32 },
 }
 
+thread_local! {
+    /// set by the controlled scheduler: OS threads are pooled there, the logical thread is what counts
+    static LOGICAL_THREAD: std::cell::Cell<Option<u64>> = const { std::cell::Cell::new(None) };
+}
+
+pub fn set_logical_thread(id: Option<u64>) {
+    LOGICAL_THREAD.with(|l| l.set(id));
+}
+
+#[derive(Clone, Debug, PartialEq)]
+enum ThreadKey {
+    Os(ThreadId),
+    Logical(u64),
+}
+
 #[derive(Default)]
 pub struct Inner {
     pub recs: Vec<(u32, Rec)>,
-    tids: Vec<ThreadId>,
+    tids: Vec<ThreadKey>,
     /// per thread index: number of times the idle point (externalQueue.dequeue entered) was reached
     pub idle: Vec<usize>,
     /// per thread index: interpret() returned
@@ -67,7 +82,10 @@ pub struct Inner {
 
 impl Inner {
     fn tix(&mut self) -> u32 {
-        let me = std::thread::current().id();
+        let me = match LOGICAL_THREAD.with(|l| l.get()) {
+            Some(l) => ThreadKey::Logical(l),
+            None => ThreadKey::Os(std::thread::current().id()),
+        };
         if let Some(p) = self.tids.iter().position(|t| *t == me) {
             return p as u32;
         }
